@@ -51,7 +51,7 @@ KIND = {
     "R18.12": "S",
     "R17.7": "W",
     "R13.4": "W",
-    "R17.8": "W", "R17.9": "W",
+    "R17.8": "W", "R17.9": "W", "R17.10": "W",
     "R18.13": "W",
     "R18.14": "W",
     "R01.13": "W",
